@@ -1,7 +1,7 @@
 (* C18: the string-form site predicates (re.match of FACEBOOK_URL_RE, TWITTER_URL_RE, INSTAGRAM_URL_RE,
    TELEGRAM_URL_RE on the url): a positive answer is decided by the prefix of the url that ends at the first
    '/', '?' or '#' after the host -- no text of the path, query or fragment can change it. *)
-From Coq Require Import List NArith Bool Arith.
+From Coq Require Import List NArith Bool Arith Lia.
 Import ListNotations.
 From UV Require Import Py.Val Py.Regex Py.RegexFacts Gen.Patterns Ural.Utils Ural.Predicates Proofs.RegexTail.
 
@@ -53,7 +53,7 @@ Proof. vm_compute. repeat split. Qed.
 (* ---------------- the pre-parsed forms: a positive answer means the hostname ends with one of the site's domains,
    as a whole label sequence (starting the hostname or following a '.') -- look-alike hosts are refused ---------------- *)
 From Coq Require Import String.
-From UV Require Import Py.Str Py.UrlLib Proofs.RegexLang.
+From UV Require Import Py.Str Py.StrFacts Py.UrlLib Proofs.RegexLang.
 Local Open Scope string_scope.
 
 Definition twitter_domains : list (list N) := [lit "twitter.com"; lit "x.com"].
@@ -87,3 +87,100 @@ Proof. apply site_parsed_member. exact instagram_paths. Qed.
 Theorem telegram_parsed_member p : is_telegram_parsed p = Ok true ->
   exists h w, hostname p = Some h /\ In w telegram_domains /\ label_suffix TELEGRAM_DOMAINS_RE_f w h.
 Proof. apply site_parsed_member. exact telegram_paths. Qed.
+
+(* ---------------- Facebook: facebook.<one label> or fb.me ---------------- *)
+Local Open Scope list_scope.
+Lemma run_split f x : forall y p p', run f (x ++ y) p p' -> exists q, run f x p q /\ run f y q p'.
+Proof.
+  induction x as [|a x IH]; intros y p p' H; cbn [app run] in *.
+  - exists p. split; [reflexivity|exact H].
+  - destruct a as [l| | |l].
+    + destruct H as (p1 & Hc & Hr). destruct (IH _ _ _ Hr) as (q & H1 & H2). exists q. split; [exists p1; split; assumption|exact H2].
+    + destruct H as [Hb Hr]. destruct (IH _ _ _ Hr) as (q & H1 & H2). exists q. split; [split; assumption|exact H2].
+    + destruct H as [He Hr]. destruct (IH _ _ _ Hr) as (q & H1 & H2). exists q. split; [split; assumption|exact H2].
+    + destruct H as (w & t & Hw & Hne & Hf & Hr). destruct (IH _ _ _ Hr) as (q & H1 & H2). exists q.
+      split; [exists w, t; repeat split; assumption|exact H2].
+Qed.
+
+(* h ends with a spelling of w followed by one non-empty dot-free label (and possibly one newline); that occurrence
+   starts h or follows a '.' *)
+Definition label_suffix_then_label (f : rflags) (w h : list N) : Prop :=
+  exists pre w' lab tail, h = pre ++ w' ++ lab ++ tail /\ ci_word f w' w /\ lab <> [] /\
+    forallb (fun c => negb (lit_test f 46 c)) lab = true /\ (tail = [] \/ tail = [10%N]) /\
+    (pre = [] \/ exists pre' c, pre = pre' ++ [c] /\ lit_test f 46 c = true).
+
+Lemma run_word_label f (first : atom) a b w p' :
+  (first = ABol \/ first = AChar 46) ->
+  run f (first :: map AChar w ++ [APlus 46; AEol]) (at_pos a b) p' -> label_suffix_then_label f w (a ++ b).
+Proof.
+  intros Hfirst H.
+  assert (exists pre0 p0, a ++ b = pre0 ++ prest p0 /\ (pre0 = [] \/ exists pre' c, pre0 = pre' ++ [c] /\ lit_test f 46 c = true) /\
+                          run f (map AChar w ++ [APlus 46; AEol]) p0 p') as (pre0 & q0 & Hab & Hbd & Hr).
+  { destruct Hfirst as [->| ->]; cbn [run] in H.
+    - destruct H as [Hb Hr]. cbn [at_pos ppre] in Hb.
+      assert (a = []) as -> by (destruct a; [reflexivity|cbn in Hb; apply (f_equal (@List.length N)) in Hb; rewrite app_length in Hb; cbn in Hb; lia]).
+      exists [], (at_pos [] b). split; [reflexivity|]. split; [left; reflexivity|exact Hr].
+    - destruct H as (p1 & (c & t & Hr0 & Ht & ->) & Hr). cbn [at_pos prest] in Hr0.
+      exists (a ++ [c]), (pstep (at_pos a b) c t). split; [cbn [pstep prest]; rewrite Hr0, <- app_assoc; reflexivity|].
+      split; [right; exists a, c; split; [reflexivity|exact Ht]|exact Hr]. }
+  apply run_split in Hr. destruct Hr as (q & H1 & H2).
+  apply run_chars in H1. destruct H1 as (w' & Hw & Hr1 & _).
+  cbn [run] in H2. destruct H2 as (lab & t & Hl & Hne & Hf & (He & ->)). cbn [padv prest] in He.
+  exists pre0, w', lab, t. split; [rewrite Hab, Hr1, Hl; reflexivity|]. repeat split; assumption.
+Qed.
+
+Definition facebook_word : list N := lit "facebook.".
+Definition fbme : list N := lit "fb.me".
+
+Fixpoint chars_then_label_eol (path : list atom) : option (list N) :=
+  match path with
+  | AChar l :: r => match chars_then_label_eol r with Some w => Some (l :: w) | None => None end
+  | APlus l :: r => match r with [AEol] => if (l =? 46)%N then Some [] else None | _ => None end
+  | _ => None
+  end.
+
+Lemma chars_then_label_eol_spec path w : chars_then_label_eol path = Some w -> path = map AChar w ++ [APlus 46; AEol].
+Proof.
+  revert w. induction path as [|a r IH]; intros w H; cbn [chars_then_label_eol] in H; [discriminate|].
+  destruct a as [l| | |l]; try discriminate.
+  - destruct (chars_then_label_eol r) as [w0|] eqn:E; [|discriminate]. injection H as <-. rewrite (IH _ eq_refl). reflexivity.
+  - destruct r as [|[| | |] [|]]; try discriminate.
+    destruct (l =? 46)%N eqn:E; [|discriminate]. apply N.eqb_eq in E. subst l. injection H as <-. reflexivity.
+Qed.
+
+Definition fb_path_ok (path : list atom) : bool :=
+  match path with
+  | first :: r =>
+      (match first with ABol => true | AChar l => (l =? 46)%N | _ => false end) &&
+      (match chars_then_eol r with
+       | Some w => str_eqb w fbme
+       | None => match chars_then_label_eol r with Some w => str_eqb w facebook_word | None => false end
+       end)
+  | [] => false
+  end.
+
+Lemma facebook_paths : exists ps, paths FACEBOOK_DOMAIN_RE = Some ps /\ forallb fb_path_ok ps = true.
+Proof. eexists. split; vm_compute; reflexivity. Qed.
+
+Theorem facebook_parsed_member p : is_facebook_parsed p = Ok true ->
+  exists h, hostname p = Some h /\
+    (label_suffix FACEBOOK_DOMAIN_RE_f fbme h \/ label_suffix_then_label FACEBOOK_DOMAIN_RE_f facebook_word h).
+Proof.
+  destruct facebook_paths as (ps & Hp & Hok).
+  unfold is_facebook_parsed, site_parsed. destruct (hostname p) as [h|]; [|discriminate].
+  intros [= H]. unfold rsearch, has_match in H. exists h. split; [reflexivity|].
+  destruct (re_search FACEBOOK_DOMAIN_RE_f FACEBOOK_DOMAIN_RE h) as [m|] eqn:E; [|discriminate].
+  apply re_search_sound in E. destruct E as (a & b & p' & -> & Hm).
+  destruct (matches_follows_path _ _ ps _ _ Hp Hm) as (path & Hin & Hrun).
+  rewrite forallb_forall in Hok. specialize (Hok _ Hin). unfold fb_path_ok in Hok.
+  destruct path as [|first r]; [discriminate|]. apply andb_true_iff in Hok. destruct Hok as [Hf Hr].
+  assert (first = ABol \/ first = AChar 46) as Hfirst.
+  { destruct first as [l| | |l]; try discriminate; [|left; reflexivity].
+    right. f_equal. apply N.eqb_eq. exact Hf. }
+  destruct (chars_then_eol r) as [w|] eqn:E1.
+  - apply str_eqb_spec in Hr. subst w. apply chars_then_eol_spec in E1. subst r. left.
+    destruct Hfirst as [->| ->]; [eapply run_bol_word|eapply run_dot_word]; exact Hrun.
+  - destruct (chars_then_label_eol r) as [w|] eqn:E2; [|discriminate].
+    apply str_eqb_spec in Hr. subst w. apply chars_then_label_eol_spec in E2. subst r. right.
+    eapply run_word_label; [exact Hfirst|exact Hrun].
+Qed.
